@@ -15,7 +15,7 @@ def run(chk):
     chk.trusted_base = TRUSTED
     chk.rule = ("op tess with all cells constructed, all input families incl. anisotropic boxes and large offsets, 1D/2D/3D, periodic/reflective: every volume > 0, sum = box measure (unused axes have unit thickness), "
                 "each volume vs the exact rational volume; the oracle's own volumes must sum exactly to the box volume; non-trivial = tessellation with >= 2 cells")
-    chk.lean(['MVoro.Props.C02'], [], [])
+    chk.lean(['MVoro.Props.C02', 'MVoro.Proofs.MeasureTiling', 'MVoro.Proofs.MeasurePeriodic'], [], [])
     got = run_cells_op(chk, op='tess')
     if got is None:
         return
@@ -62,3 +62,30 @@ def run(chk):
             chk.nontriv(r.id)
         if len(chk.samples) < 3:
             chk.sample({'op': 'tess', 'family': r.family, 'n': inp.n, 'sum': fl(tot), 'box': fl(tol.boxvol), 'tolerance_rel': tol.rel})
+    # the other observation point of the property: VoronoiIntegrator::compute_cell_integrals::<VolumeIntegral> (op routes)
+    from props.c12 import parse_routes_impl
+    got = run_cells_op(chk, op='routes')
+    if got is None:
+        return
+    nvo = 0
+    for r in got[0]:
+        inp = parse_input(r.inp)
+        if inp.mask is not None and not all(inp.mask):
+            continue
+        impl = parse_routes_impl(r.res)
+        if 'vo' not in impl:
+            continue
+        rp = {'op': r.op, 'ids': [r.id], 'family': r.family, 'record': r.line[:3000]}
+        chk.count()
+        tol = Tol(inp)
+        vols = [hex_to_frac(x) for x in impl['vo']]
+        where = '(record %d, %s, n=%d, VolumeIntegral through the integrator)' % (r.id, r.family, inp.n)
+        if any(v is None for v in vols):
+            chk.violation('impl-vs-oracle', 'non-finite cell volume %s' % where, rp, key='nonfinite')
+            continue
+        if any(not v > 0 for v in vols):
+            chk.violation('impl-vs-oracle', 'a cell has non-positive measure %s' % where, rp, key='positive')
+        if len(vols) != inp.n or abs(sum(vols) - tol.boxvol) > tol.vol * 10:
+            chk.violation('impl-vs-oracle', 'cell measures sum to %s, the box measure is %s %s' % (fl(sum(vols)), fl(tol.boxvol), where), rp, key='sum')
+        nvo += 1
+    chk.extra_cov['volume_integral_records'] = nvo
